@@ -79,6 +79,12 @@ def run(ctx):
                 k = KINDS[(n + v) % 6]
                 jobs.append({"id": "hist-exotic-%d-then-1.%d-%s" % (ex, v, enc),
                              "job": {"mode": "seq", "procs": [[call(k, ex, "enc", enc), call(k, v, "enc", enc), call(KINDS[(n + v + 3) % 6], v, "enc", enc, reuse=True)]]}})
+    # an encoding that fails in the middle of a message (recovered by the caller), then Clear and further messages on the same encoder
+    for n, enc in enumerate(ENCS):
+        for v in range(5):
+            k1, k2 = KINDS[(n + v) % 6], KINDS[(n + v + 2) % 6]
+            jobs.append({"id": "hist-poison-%s-1.%d" % (enc, v),
+                         "job": {"mode": "seq", "procs": [[call(k1, v, "enc", enc, reuse=True), call("Poison", v, "enc", enc, reuse=True), call(k1, v, "enc", enc, reuse=True), call(k2, (v + 1) % 5, "enc", enc, reuse=True)]]}})
     # (b) gated: goroutines building plans under contention in an order taken from a TLC behaviour of CodecCache.tla
     orders = tlc_orders(ctx, [ctx.seed * 100 + i for i in range(8 if ctx.quick else 60)])
     if len(orders) < 4:
